@@ -70,6 +70,14 @@ claim('C09', 'finite decision table of diff (scheme x keepaxis) over provenance 
       'unravel on obj.shape, i-th index with i-th axis). NumPy argmin tie/NaN behaviour is not decided.',
       'Assumes np.diff / np.concatenate / np.unravel_index semantics.', 'DESIGN.md §3 C09')
 
+claim('C10', 'dimension-identity coherence on provenance terms (same permutation / position term on the values side and on the axes side), guard-dominates-action, sibling-by-name check of NumPy delegates',
+      'Decides structural clauses of C10: transpose permutes values and axes with the same position list obtained from _get_axes_info; swapaxes exchanges the two '
+      'resolved positions in the identity; rollaxis uses numpy.rollaxis semantics on the resolved position; newaxis inserts the singleton at the same position on '
+      'both sides under a fresh name; squeeze removes only size-1 axes, the same one on both sides; repeat repeats and relabels the same singleton position; '
+      'broadcast reshapes order-sensitively then repeats singleton axes by name; broadcast_arrays chains align_dims, the by-name alignment check and broadcast; '
+      'metadata is carried and no rearranging function rebuilds axes from labels. Element-wise equality and composition laws are not decided.',
+      'Assumes ndarray.transpose / repeat / squeeze and np.rollaxis documented semantics.', 'DESIGN.md §3 C10')
+
 UNDER_CONSTRUCTION = 'checker under construction in this session (claimed in DESIGN.md, not yet registered)'
 for pid in ['C01', 'C03', 'C04', 'C05', 'C06', 'C07', 'C08', 'C09', 'C10', 'C11', 'C12', 'C13', 'C14', 'C15', 'C16',
             'C17', 'C18', 'C19']:
